@@ -32,7 +32,7 @@ var mapFiles = map[string]string{
 
 func freePortBlock(n int) int {
 	for i := 0; i < 400; i++ {
-		base := 21000 + ((os.Getpid()*7+portCursor)%1500)*24
+		base := 45000 + ((os.Getpid()*7+portCursor)%800)*24 // a range of its own, away from the updaters' ports
 		portCursor++
 		ok := true
 		for k := 0; k < n && ok; k++ {
@@ -275,7 +275,13 @@ func renderRestart(scratch string, s Snap, tags map[string]bool) (string, interf
 		tags["startup-error"] = true
 		return "Rs " + coqPairs([]Entry{{K: "!startup", V: "failed"}}), map[string]string{"error": st.Err}
 	}
+	// another process may take a port between the probe and dastard's bind: a failed restart is tried again
+	// on other ports (a dastard that cannot start at all fails every time)
 	rr := runRestart(scratch, s)
+	for attempt := 0; rr.Err != "" && attempt < 2; attempt++ {
+		tags["restart-retried"] = true
+		rr = runRestart(scratch, s)
+	}
 	var out []Entry
 	detail := map[string]string{}
 	if rr.Err != "" {
